@@ -106,8 +106,10 @@ type c10bWorld struct {
 	gen    int
 	unwrap AbacoUnwrapOptions
 	// Lancero
-	card *c10bCard
-	ls   *LanceroSource
+	cards    []*c10bCard // the cards of the host; one of them is active in a run
+	card     *c10bCard   // the card of the last successful Configure
+	nextCard int         // the card the next Configure activates (-1: drawn)
+	ls       *LanceroSource
 
 	blockEvery  time.Duration // time between blocks while the hardware is sending
 	inProcess   int           // core loop is inside ProcessSegments (region monitor)
@@ -118,6 +120,8 @@ type c10bWorld struct {
 	starts     int
 	failed     int
 	sawSilence bool
+
+	stopFaultsSeen int // hardware stop faults that had fired when the last Start succeeded
 }
 
 // ---------------------------------------------------------------------------------
@@ -226,19 +230,38 @@ func (w *c10bWorld) setupLancero(minBlock time.Duration) {
 		simrt.Fail("harness.setup", "harness:cringe-globals", "%v", err)
 	}
 	cringeGlobalsPath = cgPath
-	w.card = &c10bCard{hw: w.hw, rows: rows, cols: cols, framePeriod: framePeriod, isOpen: true}
-	// what NewLanceroSource does when it finds one card
+	// One card, or two of which one is active in a run (the reader refuses to run two at a time:
+	// "Handling multiple devices not yet implemented"). The second card may have another number
+	// of columns; the number of rows comes from cringeGlobals.json and is common.
+	ncards := 1
+	if simrt.Draw(3) == 2 {
+		ncards = 2
+	}
+	// what NewLanceroSource does with the cards it finds
 	ls := new(LanceroSource)
 	ls.name = "Lancero"
 	ls.nsamp = 1
 	ls.channelsPerPixel = 2
-	ls.devices = map[int]*LanceroDevice{0: {devnum: 0, card: w.card}}
-	ls.ncards = 1
+	ls.devices = map[int]*LanceroDevice{}
+	desc := ""
+	for i := 0; i < ncards; i++ {
+		c := cols
+		if i > 0 && minBlock <= 50*time.Millisecond {
+			c = 1 + simrt.Draw(2)
+		}
+		lc := &c10bCard{hw: w.hw, id: i, rows: rows, cols: c, framePeriod: framePeriod, isOpen: true}
+		lc.phase = func() string { return c10bStateName(w.any.sourceState) }
+		w.cards = append(w.cards, lc)
+		ls.devices[i] = &LanceroDevice{devnum: i, card: lc}
+		ls.ncards++
+		desc += fmt.Sprintf("; card %d: %d columns", i, c)
+	}
+	w.card, w.nextCard = w.cards[0], -1
 	ls.heartbeats = w.sc.heartbeats
 	w.sc.lancero = ls
 	w.ls = ls
 	w.name, w.ds, w.any = "LANCEROSOURCE", ls, &ls.AnySource
-	w.env.Op("Lancero world: %d rows x %d columns, frame period %v, cpu %v/step", rows, cols, framePeriod, w.delta)
+	w.env.Op("Lancero world: %d cards, %d rows, frame period %v, cpu %v/step%s", ncards, rows, framePeriod, w.delta, desc)
 }
 
 // configure is what a client does before Start: the source's Configure request. For the Abaco
@@ -248,7 +271,18 @@ func (w *c10bWorld) setupLancero(minBlock time.Duration) {
 func (w *c10bWorld) configure() error {
 	var ok bool
 	if w.kind == c10bLancero {
-		return w.sc.ConfigureLanceroSource(&LanceroSourceConfig{FiberMask: 0xffff, CardDelay: []int{1}, ActiveCards: []int{0}, FirstRow: 1}, &ok)
+		c := w.nextCard
+		if c < 0 {
+			c = 0
+			if len(w.cards) > 1 {
+				c = simrt.Draw(len(w.cards))
+			}
+		}
+		err := w.sc.ConfigureLanceroSource(&LanceroSourceConfig{FiberMask: 0xffff, CardDelay: []int{1}, ActiveCards: []int{c}, FirstRow: 1}, &ok)
+		if err == nil {
+			w.card = w.cards[c]
+		}
+		return err
 	}
 	as := w.sc.abaco
 	if err := w.sc.ConfigureAbacoSource(&AbacoSourceConfig{AbacoUnwrapOptions: w.unwrap}, &ok); err != nil {
@@ -274,10 +308,61 @@ func (w *c10bWorld) devicesBusy() []string {
 			out = append(out, fmt.Sprintf("UDP port %d still bound by receiver #%d", pt.id, pt.boundBy.gen))
 		}
 	}
-	if w.card != nil && (w.card.adap || w.card.coll) {
-		out = append(out, fmt.Sprintf("Lancero card: adapter running=%v collector running=%v", w.card.adap, w.card.coll))
+	for _, lc := range w.cards {
+		// a component that a faulted stop request did not reach is the card's business until the
+		// next request; everything else the source has started it must have stopped
+		adap, coll := lc.adap && !lc.adapStuck, lc.coll && !lc.collStuck
+		if adap || coll {
+			out = append(out, fmt.Sprintf("Lancero card %d: adapter running=%v collector running=%v", lc.id, adap, coll))
+		}
 	}
 	return out
+}
+
+// stopFaults counts the hardware stop faults that have fired so far.
+func (w *c10bWorld) stopFaults() int {
+	n := 0
+	for _, lc := range w.cards {
+		n += lc.nStopFaults
+	}
+	for _, pt := range w.ports {
+		n += pt.nStopErrs
+	}
+	return n
+}
+
+// armStopFault (faulted configuration, one time in den): a device reports an error on the
+// shutdown path. Lancero: the n-th StopCollector and/or StopAdapter request to the configured
+// card from now on (n = 1 is the source's stop() if it runs; 2 and 3 reach the stop requests of
+// the next sampling and of the next run), with the component stopped nevertheless or not.
+// Abaco: the next stop() of the receiver of one port (the port is released). See
+// zz_verif_c10bdev.go. The fault is over after that one request.
+func (w *c10bWorld) armStopFault(den int) {
+	if !w.env.Faulted() || simrt.DrawFault(den) != 0 {
+		return
+	}
+	if w.kind == c10bAbaco {
+		pt := w.ports[simrt.DrawFault(len(w.ports))]
+		pt.stopErr = true
+		w.env.Op("fault armed: the next stop of the receiver on port %d reports an error", pt.id)
+		return
+	}
+	lc := w.card
+	if lc.stopFaultArmed() {
+		return
+	}
+	nth := []int{1, 1, 1, 1, 2, 3}[simrt.DrawFault(6)]
+	which := simrt.DrawFault(3)
+	obeyed := simrt.DrawFault(3) != 0
+	collIn, adapIn := 0, 0
+	if which != 1 {
+		collIn = nth
+	}
+	if which != 0 {
+		adapIn = nth
+	}
+	lc.armStopFault(collIn, adapIn, obeyed)
+	w.env.Op("fault armed on card %d: StopCollector #%d / StopAdapter #%d from now reports an error (0: none); the component stops nevertheless: %v", lc.id, collIn, adapIn, obeyed)
 }
 
 // ---------------------------------------------------------------------------------
@@ -377,6 +462,9 @@ func (w *c10bWorld) startOK(what string) {
 	if err := w.configure(); err != nil {
 		simrt.Fail("C10.restartable", "lifecycle:configure-failed:"+what, "%s: configuring the inactive %s source failed: %v", what, w.name, err)
 	}
+	if w.kind == c10bLancero {
+		w.armStopFault(10) // reaches the stop requests that end the sampling of the card
+	}
 	err := w.rpcStart()
 	w.env.Op("%s: configure + Start -> %v", what, err)
 	if err != nil {
@@ -391,6 +479,11 @@ func (w *c10bWorld) startOK(what string) {
 		simrt.Fail("C10.active-after-start", "lifecycle:not-active-after-start", "%s: after a successful Start the source is in state %v", what, st)
 	}
 	w.expectBlocks(what)
+	if n := w.stopFaults(); n > w.stopFaultsSeen {
+		// a device had reported an error on the shutdown path since the last successful Start
+		w.stopFaultsSeen = n
+		simrt.Hit("restart-after-hardware-stop-error")
+	}
 }
 
 func (w *c10bWorld) checkStopped(what string) {
@@ -411,6 +504,20 @@ func (w *c10bWorld) checkStopped(what string) {
 	w.staleFlag = false
 }
 
+func c10bStateName(st SourceState) string {
+	switch st {
+	case Inactive:
+		return "inactive"
+	case Starting:
+		return "starting"
+	case Active:
+		return "active"
+	case Stopping:
+		return "stopping"
+	}
+	return fmt.Sprintf("state-%d", int(st))
+}
+
 // c10bSiteClass drops the line number from a spawn site (signatures stay stable when lines move).
 func c10bSiteClass(site string) string {
 	if i := strings.IndexByte(site, ':'); i >= 0 {
@@ -427,6 +534,10 @@ func (w *c10bWorld) stopK(what string, allowDirect bool) {
 	slow := -1
 	if w.env.Faulted() && simrt.DrawFault(4) == 0 {
 		slow = simrt.DrawFault(k)
+	}
+	faultsBefore := w.stopFaults()
+	if w.active {
+		w.armStopFault(3)
 	}
 	for i := 0; i < k; i++ {
 		i := i
@@ -462,6 +573,9 @@ func (w *c10bWorld) stopK(what string, allowDirect bool) {
 	if wasProcessing {
 		simrt.Hit("stop-while-block-in-process")
 	}
+	if w.stopFaults() > faultsBefore {
+		simrt.Hit("stop-with-hardware-stop-error")
+	}
 	w.env.Op("%s: %d concurrent Stop calls returned", what, k)
 	w.sc.handlePossibleStoppedSource() // (what the next request of any client does first)
 	w.checkStopped(what)
@@ -487,6 +601,9 @@ func (w *c10bWorld) settle(what string) {
 		w.sc.handlePossibleStoppedSource()
 		if alive := sourceTasksAlive(); len(alive) > 0 {
 			simrt.Fail("C10.workers-exit", "lifecycle:workers-alive:"+c10bSiteClass(alive[0]), "%s: every call returned and the source is Inactive, but worker goroutines are alive: %v", what, simrt.AliveTaskInfo())
+		}
+		if busy := w.devicesBusy(); len(busy) > 0 {
+			simrt.Fail("C10.workers-exit", "lifecycle:devices-not-released", "%s: every call returned and the source is Inactive, but %v", what, busy)
 		}
 	default:
 		simrt.Fail("C10.inactive-after-stop", "lifecycle:stuck-in-transition", "%s: every Start and Stop call has returned but the source is in state %v", what, st)
@@ -552,6 +669,8 @@ func (w *c10bWorld) startDuringStop() {
 	if w.env.Faulted() && simrt.DrawFault(3) == 0 {
 		slow = simrt.DrawFault(nstop + 1) // nstop: the starting client
 	}
+	faultsBefore := w.stopFaults()
+	w.armStopFault(4)
 	for i := 0; i < nstop; i++ {
 		i := i
 		coarse := time.Duration(simrt.Draw(3)) * 7 * time.Millisecond
@@ -605,6 +724,9 @@ func (w *c10bWorld) startDuringStop() {
 	})
 	for i := 0; i < nstop+1; i++ {
 		w.env.Op("start-during-stop: %s", <-done)
+	}
+	if w.stopFaults() > faultsBefore {
+		simrt.Hit("start-during-stop-with-hardware-stop-error")
 	}
 	w.settle("Start during Stop")
 	if w.active {
@@ -680,6 +802,7 @@ func (w *c10bWorld) concurrentStarts() {
 func (w *c10bWorld) startWhileStopping() {
 	abort := w.any.abortSelf
 	done := make(chan string, 2)
+	w.armStopFault(4)
 	go func() {
 		err := w.rpcStop()
 		done <- fmt.Sprintf("Stop -> %v", err)
@@ -743,8 +866,14 @@ func (w *c10bWorld) failedStart() {
 		what = "a UDP port cannot be bound at Start"
 		w.ports[simrt.DrawFault(len(w.ports))].startErr = fmt.Errorf("listen udp: bind: address already in use (another program, simulated)")
 	case flavour == 1 && w.kind == c10bLancero:
+		// (the card keeps collecting after the failed StartRun, see notes/C10b.md: the retry uses the same card)
 		what = "card falls silent between sampling and run"
-		w.card.silentAtAdapStart = w.card.nAdapStarts + 2
+		w.nextCard = 0
+		if len(w.cards) > 1 {
+			w.nextCard = simrt.DrawFault(len(w.cards))
+		}
+		lc := w.cards[w.nextCard]
+		lc.silentAtAdapStart = lc.nAdapStarts + 2
 	default:
 		w.hw.setSilent(true)
 		simrt.Fault("silent-at-start")
@@ -753,9 +882,14 @@ func (w *c10bWorld) failedStart() {
 	if err := w.configure(); err != nil {
 		simrt.Fail("C10.restartable", "lifecycle:configure-failed:before a failing Start", "configuring the inactive %s source failed: %v", w.name, err)
 	}
+	faultsBefore := w.stopFaults()
+	w.armStopFault(4) // reaches the stop requests with which the failing Start gives its devices back
 	err := w.rpcStart()
 	w.env.Op("%s: Start -> %v", what, err)
 	simrt.Hit("failed-start")
+	if w.stopFaults() > faultsBefore {
+		simrt.Hit("failed-start-with-hardware-stop-error")
+	}
 	w.failed++
 	if err == nil {
 		simrt.Fail("C10.failed-start", "lifecycle:failed-start-succeeded", "%s: Start succeeded", what)
@@ -772,12 +906,13 @@ func (w *c10bWorld) failedStart() {
 		w.env.Op("Stop after the failed Start -> %v", err)
 	}
 	w.hw.setSilent(false)
-	if w.card != nil {
-		w.card.silentAtAdapStart = 0
+	for _, lc := range w.cards {
+		lc.silentAtAdapStart = 0
 	}
 	time.Sleep(3*w.blockEvery + time.Duration(simrt.Draw(4))*50*time.Millisecond)
 	w.env.Op("the hardware is sending")
 	w.startOK("Start after a failed Start (" + what + ")")
+	w.nextCard = -1
 	simrt.Hit("start-after-failed-start")
 }
 
@@ -823,6 +958,13 @@ func (w *c10bWorld) silence() {
 		}
 		if simrt.DrawFault(2) == 0 {
 			w.env.Op("fault: the hardware is silent until the source gives up")
+			faultsBefore := w.stopFaults()
+			w.armStopFault(2) // the run ends by itself and a receiver reports an error when it is closed
+			defer func() {
+				if w.stopFaults() > faultsBefore {
+					simrt.Hit("self-termination-with-hardware-stop-error")
+				}
+			}()
 			deadline := time.Now().Add(8 * time.Second)
 			for w.ds.Running() {
 				if time.Now().After(deadline) {
@@ -839,6 +981,7 @@ func (w *c10bWorld) silence() {
 		} else {
 			d := 5*time.Second - time.Duration(simrt.DrawFault(14))*20*time.Millisecond
 			w.env.Op("fault: the hardware is silent; Stop callers arrive %v later, around the read time-out", d)
+			w.armStopFault(3)
 			time.Sleep(d)
 			if !w.ds.Running() {
 				simrt.Hit("stop-just-after-timeout")
